@@ -10,6 +10,7 @@ from __future__ import annotations
 
 import contextlib
 import hashlib
+import sys
 import threading
 import traceback
 
@@ -99,12 +100,19 @@ def _poisonable(t):
 
 class World:
     def __init__(self, n, program, delivery='eager', poison=True,
-                 want_key=False, initialized=True):
+                 want_key=False, initialized=True, fine_files=()):
         assert delivery in ('eager', 'lazy', 'free')
         self.n, self.program = n, program
         self.delivery, self.poison = delivery, poison
         self.want_key = want_key
         self.initialized = initialized
+        # fine-grained completion points: in real backends the callbacks of
+        # a completed collective run on another thread, i.e. between any
+        # two lines of the caller.  With delivery='free', every line of the
+        # listed source files executed by a rank while one of its collectives
+        # is ready-but-undelivered is a point at which that delivery (and
+        # only that rank's transitions) may be interleaved.
+        self.fine_files = tuple(fine_files)
         self.sem = [_Baton() for _ in range(n)]
         self.sched = _Baton()
         self.status = [('new',)] * n  # ('ready',label)|('wait',fut)|('done',)
@@ -156,6 +164,8 @@ class World:
 
     def _body(self, r):
         _tls.world, _tls.rank, _tls.is_rank = self, r, True
+        if self.fine_files and self.delivery == 'free':
+            sys.settrace(self._trace_call)
         try:
             self._park(r, ('ready', 'start'))
             self.results[r] = self.program(r, self)
@@ -167,16 +177,35 @@ class World:
             self.errors[r] = (f'{type(e).__name__}: {e}',
                               traceback.format_exc())
         finally:
+            sys.settrace(None)
             self.status[r] = ('done',)
             _tls.world = None
             self.sched.release()
+
+    def _trace_call(self, frame, event, arg):
+        if event == 'call' and frame.f_code.co_filename.endswith(
+                self.fine_files):
+            return self._trace_line
+        return None
+
+    def _trace_line(self, frame, event, arg):
+        if event == 'line' and not self.aborting:
+            r = _tls.rank
+            for q in self.pending[r].values():
+                if q and q[0].ready():
+                    self.stats['line_points'] = self.stats.get(
+                        'line_points', 0) + 1
+                    self._park(r, ('line', frame.f_lineno))
+                    break
+        return self._trace_line
 
     def _park(self, r, st):
         if self.want_key:
             fn = self.digest_fn[r]
             d = fn() if fn is not None else b''
             h = hashlib.blake2b(self.hist[r], digest_size=16)
-            h.update(repr(st[1] if st[0] == 'ready' else 'wait').encode())
+            h.update(repr(st[1] if st[0] in ('ready', 'line')
+                          else 'wait').encode())
             h.update(d)
             self.hist[r] = h.digest()
         self.pc[r] += 1
@@ -206,7 +235,7 @@ class World:
     # -------------------------------------------------------- scheduling
     def _rank_enabled(self, r):
         st = self.status[r]
-        if st[0] == 'ready':
+        if st[0] in ('ready', 'line'):
             return True
         if st[0] == 'wait':
             if st[1].done():
@@ -226,6 +255,13 @@ class World:
     def enabled(self):
         if self.violations:
             return []
+        for r in range(self.n):
+            if self.status[r][0] == 'line':
+                # only this rank's own transitions: everything else
+                # commutes with its local lines
+                return [('R', r)] + [
+                    ('D', r, gid) for gid in sorted(self.pending[r])
+                    if self.pending[r][gid] and self.pending[r][gid][0].ready()]
         en = [('R', r) for r in range(self.n) if self._rank_enabled(r)]
         if self.delivery == 'free':
             for r in range(self.n):
